@@ -612,3 +612,31 @@ Lemma no_panic_lemma : forall split share ths acts,
   panicked (run split share (init ths) acts) = false.
 Proof. intros. apply si_nopanic. apply run_TI_SI. apply TI_init. now apply SI_init. Qed.
 
+
+(* ---- no thread ever waits for another: every own step of a worker, handler or reload is enabled
+   and takes it strictly closer to its end ---- *)
+
+Lemma step_progress : forall split share c t ch,
+  is_sweeper (thr c t) = false -> thread_ended (thr c t) = false ->
+  own_steps_left (thr (step split share c (Run t ch)) t) < own_steps_left (thr c t).
+Proof.
+  intros split share c t ch NS NE. cbn. destruct (thr c t) eqn:Ht; try discriminate.
+  - destruct (wstep split share c t m pc) as [c' pc'] eqn:W. cbn. rewrite upd_same.
+    destruct pc; cbn in W; try discriminate; crush_match W; inversion W; subst; cbn; lia.
+  - destruct (hstep c k pc) as [c' pc'] eqn:H. cbn. rewrite upd_same.
+    destruct pc; cbn in H; try discriminate; crush_match H; inversion H; subst; cbn; lia.
+  - destruct done; [discriminate|]. cbn. rewrite upd_same. cbn. lia.
+Qed.
+
+(* what a handler saw stays valid until the key is removed: a lookup that found the registration can
+   be placed after every ingest in a serial order, one that did not find it before them *)
+Lemma seen_stays_valid_lemma : forall split share ths acts k o r tr1 tr2,
+  let c := run split share (init ths) acts in
+  trace c = tr1 ++ ESeen k o r :: tr2 -> ~ In (ERemove k) tr1 ->
+  exists o', decoys c k = Some o' /\ o_valid (objs c o') = true.
+Proof.
+  intros split share ths acts k o r tr1 tr2 c E N.
+  assert (T : TI c) by (apply run_TI, TI_init).
+  apply (ti_live _ T k). rewrite E. apply live_ann_app_no_remove; auto.
+  pose proof (ti_ann _ T) as A. rewrite E in A. apply ann_ok_app in A. cbn in A. cbn. tauto.
+Qed.
